@@ -22,7 +22,7 @@ RULE = (
     "failed raises a TransportError; every parked command is successfully written exactly once and never attempted again afterwards; a "
     "command is only written at a wake of its own node; nothing else is written. Thorough enumerates every combination (5 keys, subsets of "
     "size 1-4, wake sequences up to 3, all subsets of attempts 0-5) for the three versions; quick enumerates a slice and samples the rest. "
-    "Non-trivial = a fault lands inside a flush that had >= 2 commands pending; distinct = distinct case JSON."
+    "A 'race' kind adds schedules: one write of the flush fails while application sends arrive (C09's scheduler, every interleaving and every position of the single fault); the last value sent per key must still be written once both nodes have woken fault-free. Non-trivial = a fault lands inside a flush that had >= 2 commands pending; distinct = distinct case JSON."
 )
 ASSUMPTIONS = [
     "faults are raised by the transport's write before anything is recorded (an all-or-nothing write)",
@@ -57,6 +57,10 @@ def strategy(tier: str):
 
 
 def enumerate_cases(tier: str):
+    for version in ("2.0", "2.2") if tier == "quick" else ("2.0", "2.1", "2.2"):
+        for parked in (1, 2) if tier == "quick" else (1, 2, 3):
+            for senders in ([[0, True]], [[1, True]], [[0, True], [0, True]], [[3, True]]):
+                yield {"kind": "race", "config": {"version": version, "parked": parked, "other_parked": 0, "senders": senders, "faults": 1}}
     versions = ("2.0", "2.1", "2.2") if tier == "thorough" else ("2.1", "2.2")
     max_wakes = 3 if tier == "thorough" else 2
     max_attempt = 6 if tier == "thorough" else 3
@@ -72,7 +76,23 @@ def enumerate_cases(tier: str):
                             yield {"version": version, "parked": parked, "wakes": list(wakes), "faults": faults}
 
 
+def _run_race(case: dict) -> Outcome:
+    """One failing write inside a flush that races with sends: all schedules (C09's scheduler); nothing may be lost."""
+    from vf.props import c09
+
+    bad, count, raced, _trunc = c09._explore(case["config"])
+    classes = ("race-with-fault",)
+    if bad is not None and not bad.ok:
+        bad.sig = f"race:{bad.sig}"
+        bad.classes = classes
+        bad.extra_evals = count - 1
+        return bad
+    return Outcome(ok=True, nontrivial=True, classes=classes, extra_evals=count - 1)
+
+
 def run_case(case: dict) -> Outcome:
+    if case.get("kind") == "race":
+        return _run_race(case)
     version = case["version"]
     wake_type = 32 if version == "2.2" else 22
     parked = case["parked"]
